@@ -14,7 +14,8 @@ PROPERTY = PropertySpec(
                 'converter (default or custom, an uninterpreted function of the symbol) is applied exactly once per symbol that has an '
                 'equation, in symbol order, its output inserted verbatim (indented) into the template; name lists and LAGS/LEADS as '
                 'prescribed; `pass` only when there is no code. Syntactic lemma: the typed and untyped templates read from the source are the '
-                'same program after annotation erasure, for every equations block.',
+                'same program after annotation erasure, for every equations block, and each class attribute is filled from the field of its own name. build_model is executed from source with build_model_definition and exec as '
+                'recording contracts: every option forwarded unchanged, the text executed is the definition text, the class it defines is returned with that text as CODE.',
     level_text='deductive for all symbol contents with list length <= 2 (bounded in the list length), all integer options; template lemma '
                'for all programs; exec-level equivalence is bounded',
     level_note='trusted: pyvc, z3; assumed: textwrap.indent is a function of its arguments; str.format field substitution',
